@@ -178,6 +178,49 @@ Theorem C14_cast_assignable_representation :
 Proof. exact cast_assignable_representation. Qed.
 Print Assumptions C14_cast_assignable_representation.
 
+(* ---- ADDITIONAL positions (not part of the property's "initialisation and assignment" sentence): call
+   arguments and returned values.  Which of {equivalent, numeric-for-numeric, anything-but-nothing for
+   Variable} each accepts. -------------------------------------------------------------------------------- *)
+(* value parameter: exactly the equivalent types *)
+Theorem C14_arg_char :
+  forall param arg assignable text_index, arg_ok false assignable text_index param arg = equal param arg.
+Proof. exact arg_char. Qed.
+Print Assumptions C14_arg_char.
+
+(* Referenz parameter: an assignable argument of an EQUAL type (no numeric conversion, no Variable rule) *)
+Theorem C14_ref_arg_needs_equal :
+  forall param arg assignable text_index,
+    arg_ok true assignable text_index param arg = true -> assignable = true /\ equal param arg = true.
+Proof. exact ref_arg_needs_equal. Qed.
+Print Assumptions C14_ref_arg_needs_equal.
+Example C14_ref_arg_needs_equal_nonvacuous :
+  arg_ok true true false ex_nummer (Prim PZahl) = true /\ arg_ok true true false (Prim PKommazahl) (Prim PZahl) = false.
+Proof. vm_compute. split; reflexivity. Qed.
+
+Theorem C14_ref_arg_char :
+  forall param arg assignable text_index,
+    arg_ok true assignable text_index param arg =
+    assignable && negb (equal param (Prim PBuchstabe) && text_index) && equal param arg.
+Proof. exact ref_arg_char. Qed.
+Print Assumptions C14_ref_arg_char.
+
+(* returned value: equivalent, or anything but nothing for Variable; no numeric-for-numeric *)
+Theorem C14_return_char :
+  forall ret v, return_ok true ret v = true <-> equal v Void = false /\ (equal ret v = true \/ equal ret Any = true).
+Proof. exact return_char. Qed.
+Print Assumptions C14_return_char.
+
+Theorem C14_return_bare_char : forall ret, return_ok false ret Void = equal ret Void.
+Proof. exact return_bare_char. Qed.
+Print Assumptions C14_return_bare_char.
+
+Theorem C14_return_implies_assign : forall ret v, return_ok true ret v = true -> assign_ok ret v = true.
+Proof. exact return_implies_assign. Qed.
+Print Assumptions C14_return_implies_assign.
+Example C14_positions_differ :
+  return_ok true (Prim PZahl) (Prim PKommazahl) = false /\ assign_ok (Prim PZahl) (Prim PKommazahl) = true /\ return_ok true Any (Prim PZahl) = true.
+Proof. exact return_no_numeric_conversion. Qed.
+
 (* ---- the structurally recursive model functions satisfy the recursion equations of the Go code ---- *)
 Theorem C14_true_underlying_go_eq : forall t, true_underlying t = go_true_underlying_body t.
 Proof. exact true_underlying_go_eq. Qed.
